@@ -1378,7 +1378,7 @@ Qed.
    at the depth), each the exact sum of the postings with that key; total preserved *)
 Definition generated_rows (depth g : Z) (comps : list post) (m : list (str * value)) : list post :=
   map (fun e => mkPost (xid_collapse g) (range_start comps) (range_finish comps)
-                       (last_payee comps) (fst e) false 0 (snd e)) m.
+                       (last_payee comps) (last_payee comps) (fst e) false 0 (snd e)) m.
 
 Lemma collapse_group_cases depth g comps rows :
   collapse_group depth g comps = Ok rows ->
@@ -1628,4 +1628,181 @@ Proof.
               filter (fun p => str_eqb (take_segs (Z.to_nat depth) (pacct p)) (pacct r)) comps) as ->.
       { apply filter_ext. intros p. unfold key_is. now rewrite K. }
       lra.
+Qed.
+
+(* ====================================================================================== *)
+(* 6. --by-payee partitions the postings by post_t::payee() (ppayee) and account          *)
+(* ====================================================================================== *)
+
+Definition payee_isb (k : str) (p : post) : bool :=
+  match ppayee p with PName s => str_eqb s k | _ => false end.
+
+Lemma payee_isb_is k p : payee_is k p -> payee_isb k p = true.
+Proof. unfold payee_is, payee_isb. intros ->. apply str_eqb_refl. Qed.
+
+Lemma payee_isb_other k k' p : payee_is k' p -> k' <> k -> payee_isb k p = false.
+Proof.
+  unfold payee_is, payee_isb. intros -> N. destruct (str_eqb k' k) eqn:E; [|reflexivity].
+  apply str_eqb_spec in E. contradiction.
+Qed.
+
+Lemma filter_payee_all k ps : Forall (payee_is k) ps -> filter (payee_isb k) ps = ps.
+Proof.
+  induction 1 as [|p ps H F IH]; [reflexivity|]. cbn [filter]. now rewrite (payee_isb_is _ _ H), IH.
+Qed.
+
+Lemma filter_payee_none k k' ps : Forall (payee_is k') ps -> k' <> k -> filter (payee_isb k) ps = [].
+Proof.
+  intros F N. induction F as [|p ps H F IH]; [reflexivity|]. cbn [filter].
+  now rewrite (payee_isb_other _ _ _ H N), IH.
+Qed.
+
+Lemma str_lt_neq a b : str_lt a b -> a <> b.
+Proof. intros L ->. exact (str_lt_irrefl _ L). Qed.
+
+(* the bucket of payee k holds, in order, exactly the postings of the buckets with payee k *)
+Lemma bucket_is_filter (m : list (str * list post)) :
+  buckets_ok m -> StronglySorted str_lt (map fst m) ->
+  forall k ps, In (k, ps) m -> filter (payee_isb k) (concat (map snd m)) = ps.
+Proof.
+  unfold buckets_ok. induction m as [|[k0 ps0] m IH]; intros OK S k ps H; [destruct H|].
+  inversion OK as [|? ? O1 O2]; subst. cbn [map fst] in S. inversion S as [|? ? S' M]; subst.
+  cbn [map snd concat fst] in *. rewrite filter_app. destruct H as [H|H].
+  - injection H as -> ->. rewrite (filter_payee_all _ _ O1).
+    assert (filter (payee_isb k) (concat (map snd m)) = []) as ->; [|apply app_nil_r].
+    clear IH S' S OK O1. induction m as [|[k1 ps1] m IHm]; [reflexivity|].
+    inversion O2 as [|? ? A1 A2]; subst. cbn [map fst] in M. inversion M as [|? ? L1 L2]; subst.
+    cbn [map snd concat fst] in *. rewrite filter_app, (IHm A2 L2), app_nil_r.
+    apply (filter_payee_none k k1); [exact A1|]. intros E. subst. exact (str_lt_irrefl _ L1).
+  - rewrite (filter_payee_none k k0 ps0 O1).
+    + cbn [app]. now apply IH.
+    + rewrite Forall_forall in M. apply str_lt_neq. apply M.
+      change k with (fst (k, ps)). now apply in_map.
+Qed.
+
+Lemma filter_perm {A} (f : A -> bool) l l' : Permutation l l' -> Permutation (filter f l) (filter f l').
+Proof.
+  induction 1 as [|x l l' P IH|x y l|l l' l'' P1 IH1 P2 IH2]; cbn [filter].
+  - constructor.
+  - destruct (f x); [now constructor|exact IH].
+  - destruct (f x), (f y); try reflexivity. apply perm_swap.
+  - eapply Permutation_trans; eauto.
+Qed.
+
+Lemma filter_filter {A} (f g : A -> bool) l :
+  filter f (filter g l) = filter (fun x => g x && f x) l.
+Proof.
+  induction l as [|x l IH]; [reflexivity|]. cbn [filter].
+  destruct (g x); cbn [andb filter]; [destruct (f x); now rewrite IH | exact IH].
+Qed.
+
+Lemma Forall2_in_r {A B} (R : A -> B -> Prop) l l' :
+  Forall2 R l l' -> forall y, In y l' -> exists x, In x l /\ R x y.
+Proof.
+  induction 1 as [|a b l l' H F IH]; intros y Hy; [destruct Hy|].
+  destruct Hy as [<-|Hy]; [exists a; split; [now left|exact H]|].
+  destruct (IH y Hy) as (x & Hx & Rx). exists x. split; [now right|exact Rx].
+Qed.
+
+Lemma Forall2_in_l {A B} (R : A -> B -> Prop) l l' :
+  Forall2 R l l' -> forall x, In x l -> exists y, In y l' /\ R x y.
+Proof.
+  induction 1 as [|a b l l' H F IH]; intros x Hx; [destruct Hx|].
+  destruct Hx as [<-|Hx]; [exists b; split; [now left|exact H]|].
+  destruct (IH x Hx) as (y & Hy & Ry). exists y. split; [now right|exact Ry].
+Qed.
+
+Lemma subtotal_group_payee py xid comps rows :
+  subtotal_group py xid comps = Ok rows -> forall r, In r rows -> ppayee r = py comps.
+Proof.
+  unfold subtotal_group. destruct comps as [|p0 c0] eqn:E; [intros [= <-] r []|]. rewrite <- E.
+  destruct (sub_feed [] comps) as [m|]; cbn [bind]; [|discriminate].
+  intros [= <-] r Hr. unfold sub_report in Hr. apply in_map_iff in Hr. destruct Hr as (e & <- & _).
+  reflexivity.
+Qed.
+
+(* every row of --by-payee carries a payee name k and an account a and is the exact
+   per-commodity sum of the input postings whose post_t::payee() is k and whose account is
+   a; and every input posting belongs to the row of its payee and account *)
+Theorem by_payee_partition l rows :
+  by_payee l = Ok rows ->
+  (forall r, In r rows -> exists k, ppayee r = PName k /\
+     forall c, (den (pamt r) c ==
+                sum_den (filter (fun p => payee_isb k p && acct_is (pacct r) p) l) c)%Q) /\
+  (forall p, In p l -> exists k r, ppayee p = PName k /\ In r rows /\
+     ppayee r = PName k /\ pacct r = pacct p).
+Proof.
+  intros H. destruct (by_payee_sums l rows H) as (m & rr & P & S & OK & -> & F2 & _). split.
+  - intros r Hr. apply in_concat in Hr. destruct Hr as (o & Ho & Hr).
+    destruct (Forall2_in_r _ _ _ F2 o Ho) as ([k ps] & Hm & (b & G)). cbn [fst snd] in G.
+    exists k. split; [exact (subtotal_group_payee _ _ _ _ G r Hr)|]. intros c.
+    destruct (RegroupProofs.subtotal_group_sums _ _ _ _ G) as (_ & _ & V & _). rewrite (V r c Hr).
+    apply sum_den_perm. rewrite <- filter_filter.
+    apply filter_perm. rewrite <- (bucket_is_filter m OK S k ps Hm). now apply filter_perm.
+  - intros p Hp. apply (Permutation_in _ (Permutation_sym P)) in Hp.
+    apply in_concat in Hp. destruct Hp as (ps & Hps & Hp). apply in_map_iff in Hps.
+    destruct Hps as ([k ps'] & E & Hm). cbn [snd] in E. subst ps'.
+    destruct (Forall2_in_l _ _ _ F2 (k, ps) Hm) as (o & Ho & (b & G)). cbn [fst snd] in G.
+    assert (Hk : payee_is k p).
+    { unfold buckets_ok in OK. rewrite Forall_forall in OK. pose proof (OK _ Hm) as O. cbn [fst snd] in O.
+      rewrite Forall_forall in O. now apply O. }
+    destruct (RegroupProofs.subtotal_group_sums _ _ _ _ G) as (_ & I & _ & _).
+    assert (In (pacct p) (map pacct o)) as Ha by (apply I; exists p; split; [exact Hp|reflexivity]).
+    apply in_map_iff in Ha. destruct Ha as (r & Ea & Hr).
+    exists k, r. split; [exact Hk|]. split; [apply in_concat; exists o; split; assumption|].
+    split; [exact (subtotal_group_payee _ _ _ _ G r Hr)|exact Ea].
+Qed.
+
+(* ... and no two rows share payee and account: exactly one group per posting *)
+Lemma nodup_app {A} (a b : list A) :
+  NoDup a -> NoDup b -> (forall x, In x a -> ~ In x b) -> NoDup (a ++ b).
+Proof.
+  induction a as [|x a IH]; intros Na Nb D; [exact Nb|].
+  inversion Na as [|? ? N1 N2]; subst. cbn [app]. constructor.
+  - rewrite in_app_iff. intros [H|H]; [contradiction|]. exact (D x (or_introl eq_refl) H).
+  - apply IH; [exact N2|exact Nb|]. intros y Hy. apply D. now right.
+Qed.
+
+Lemma sorted_nodup (ks : list str) : StronglySorted str_lt ks -> NoDup ks.
+Proof.
+  induction 1 as [|k ks S IH M]; constructor; [|exact IH]. now apply sorted_not_in.
+Qed.
+
+Definition row_key (r : post) : payee * str := (ppayee r, pacct r).
+
+Lemma by_payee_rows_nodup : forall (m : list (str * list post)) rr,
+  Forall2 (fun e o => exists b, subtotal_group (fun _ => PName (fst e)) (xid_subtotal b) (snd e) = Ok o) m rr ->
+  StronglySorted str_lt (map fst m) ->
+  NoDup (map row_key (concat rr)) /\
+  forall r, In r (concat rr) -> exists k, In k (map fst m) /\ ppayee r = PName k.
+Proof.
+  induction 1 as [|[k ps] o m rr (b & G) F IH]; intros S.
+  - split; [constructor|intros r []].
+  - cbn [map fst] in S. inversion S as [|? ? S' M]; subst. destruct (IH S') as [N I].
+    cbn [fst snd] in G. cbn [concat]. rewrite map_app. split.
+    + apply nodup_app; [|exact N|].
+      * destruct (RegroupProofs.subtotal_group_sums _ _ _ _ G) as (SS & _).
+        apply sorted_nodup in SS. clear -SS G.
+        assert (P : forall r, In r o -> ppayee r = PName k) by (exact (subtotal_group_payee _ _ _ _ G)).
+        clear G. induction o as [|r o IHo]; [constructor|]. cbn [map] in *.
+        inversion SS as [|? ? N1 N2]; subst. constructor.
+        -- intros H. apply in_map_iff in H. destruct H as (r' & E & Hr'). apply N1.
+           unfold row_key in E. injection E as _ E. rewrite <- E. now apply in_map.
+        -- apply IHo; [exact N2|]. intros r' Hr'. apply P. now right.
+      * intros x Hx Hx'. apply in_map_iff in Hx. destruct Hx as (r & <- & Hr).
+        apply in_map_iff in Hx'. destruct Hx' as (r' & E & Hr').
+        destruct (I r' Hr') as (k' & Hk' & Pk').
+        pose proof (subtotal_group_payee _ _ _ _ G r Hr) as Pk. cbn beta in Pk.
+        unfold row_key in E. injection E as E _. rewrite Pk, Pk' in E. injection E as ->.
+        rewrite Forall_forall in M. exact (str_lt_irrefl _ (M _ Hk')).
+    + intros r Hr. apply in_app_iff in Hr. destruct Hr as [Hr|Hr].
+      * exists k. split; [now left|exact (subtotal_group_payee _ _ _ _ G r Hr)].
+      * destruct (I r Hr) as (k' & Hk' & Pk'). exists k'. split; [now right|exact Pk'].
+Qed.
+
+Theorem by_payee_one_row_per_group l rows :
+  by_payee l = Ok rows -> NoDup (map row_key rows).
+Proof.
+  intros H. destruct (by_payee_sums l rows H) as (m & rr & _ & S & _ & -> & F2 & _).
+  exact (proj1 (by_payee_rows_nodup m rr F2 S)).
 Qed.
